@@ -316,6 +316,13 @@ func (x *Exec) builtinAppend(fr *Frame, st *State, v *ssa.Call) {
 	{
 		first := mkIte(fits, x.iAdd(soff, slen), slen)
 		x.assume(mkImp(x.iLt(x.S.IdxLit(0), tlen), mkEq(mkSelect(rarr, first, es), mkSelect(tarr, toff, es))))
+		// and the appended elements seen from the source side (trigger on the source array)
+		tarrN := x.declareEq("tarr", tarr)
+		m := "m!t"
+		mt := Term{m, x.S.Idx()}
+		x.assume(Term{fmt.Sprintf("(forall ((%s %s)) (! (=> (and %s %s) (= (select %s %s) (select %s %s))) :pattern ((select %s %s))))",
+			m, x.S.Idx(), x.iLe(toff, mt).S, x.iLt(mt, x.iAdd(toff, tlen)).S,
+			rarr.S, x.iAdd(first, x.iSub(mt, toff)).S, tarrN.S, m, tarrN.S, m), "Bool"})
 	}
 	rref := mkIte(fits, sref, fresh)
 	x.heapSet(st, hn, mkStore(h, rref, rarr))
